@@ -45,7 +45,7 @@ HeapMatches(os, ds) ==
   /\ \A d \in 1 .. Len(ds) : ds[d] = ObsDev(Ev.devs[d])
 
 Applied ==
-  CASE Ev.op = "new"          -> DoNew(Ev.box)
+  CASE Ev.op = "new"          -> DoNew(Ev.box, Ev.q)
     [] Ev.op = "setop"        -> DoSetOp(Ev.kind, Ev.a, Ev.b)
     [] Ev.op = "rotate"       -> DoRotate(Ev.a, Ev.q, Ev.orgc, Ev.inplace)
     [] Ev.op = "translate"    -> DoTranslate(Ev.a, Ev.parc, Ev.inplace)
